@@ -84,6 +84,23 @@ _E4_ASSUME = [
 ]
 
 
+PROPS["C16"] = {
+    "lean_modules": ["Toxi.Proofs.C16"],
+    "theorems": ["Toxi.Conc." + t for t in [
+        "C16_alone_is_sequential", "C16_sequential_runs", "C16_single_block_atomic", "C16_toxic_effect_atomic",
+        "alone_single", "alone_toxic", "alone_update", "step_update", "step_toxic_absent", "kindOf_toxic_inv", "kindOf_update_inv",
+        "C16_zombie_witness", "C16_zombie_not_sequential", "C16_lost_disable_witness", "C16_lost_disable_not_sequential"]],
+    "engines": [{"engine": "e7", "args": [], "tag": "C16"}],
+    "model_scope": "api.go handlers as sequences of atomic blocks (Model/Conc.lean): ProxyCreate/ProxyDelete/Populate/reads one block (ProxyCollection.Add/Remove/AddOrReplace under the collection lock), toxic add/update/remove two blocks (lookup, then the ToxicCollection method on that object), ProxyUpdate four (lookup, unlocked read of the defaults + decode, Proxy.Update whose stop-then-start is visible half-way to unlocked readers); proxy objects identified by (name, epoch); listeners of unregistered objects (zombies)",
+    "assumptions": _E4_ASSUME + [
+        "sync.Mutex/RWMutex give mutual exclusion; a block is what one critical section (or one unlocked read) does — data races inside a block other than the ones modelled (the unlocked reads of a proxy's listen/upstream/enabled) are not modelled",
+        "E7's schedules are the real scheduler's plus pseudo-random sleeps at the seven yield points the overlay inserts into api.go; nothing guarantees that every interleaving is visited",
+        "response bodies are not compared (marshalled after the locks are released); multi-entry populate and reset are excluded from the overlapping sets",
+    ],
+}
+
+
+
 def _api(prop, theorems, extra_assume=()):
     return {
         "lean_modules": ["Toxi.Proofs." + prop],
@@ -203,6 +220,7 @@ _TIES = {
     "C12": ["tie_toxics"], "C13": ["tie_toxics", "tie_link_start"],
     "C14": ["tie_run", "tie_toxic_json", "tie_chain_ops", "tie_update_link"],
     "C15": ["tie_stub_close", "tie_link_read", "tie_link_write", "tie_interrupt"],
+    "C16": ["tie_collection", "tie_toxic_json", "tie_update", "tie_routes"],
     "C17": ["tie_collection", "tie_update", "tie_routes"],
     "C19": ["tie_client", "tie_cli", "tie_routes"],
     "C18": ["tie_chanreader"],
